@@ -536,7 +536,6 @@ func newErrorResponse(requestSeq int, command string, message string) *dap.Error
 	er.Response = *newResponse(requestSeq, command)
 	er.Success = false
 	er.Message = "unsupported"
-	er.Body.Error.Format = message
-	er.Body.Error.Id = 12345
+	er.Body.Error = &dap.ErrorMessage{Id: 12345, Format: message}
 	return er
 }
